@@ -17,6 +17,7 @@ import random
 from .. import common as c
 from .. import seq_util as u
 
+FAST = {"JAVA_TOOL_OPTIONS": "-Xss64m -XX:TieredStopAtLevel=1"}     # short TLC runs: no C2 compilation (3x less CPU)
 PROP = "C12"
 SIG_CIRC = "ig-circular-protein-name-truncated"
 DEVS = [("F2", "Final"), ("NoLastEdge", "Final"), ("TableTypo", "Final"), ("TermSwap", "Final"), ("NoCircLabel", "Final"),
@@ -93,6 +94,13 @@ def _gp_chunk(arg):
         elif inp["fam"] == "json":
             p, text = u.render_json(inp, wd, "g%d" % ci)
             r = u.run_gen_params(wd, "g%d" % ci, ff, seq_file=p)
+        elif inp["fam"] == "genseq":
+            # the .json written by the real gen_seq, read by the real gen_params
+            events, text = u.run_genseq(inp, wd, "g%d" % ci)
+            if events[-1]["act"] == "Exception":
+                bad.append((k, "gen_seq raised %s" % events[-1]["exc"], events, text))
+                continue
+            r = u.run_gen_params(wd, "g%d" % ci, ff, seq_file=u.Path(wd) / ("g%d.json" % ci))
         else:
             text = " ".join(u.seqlist_args(inp))
             r = u.run_gen_params(wd, "g%d" % ci, ff, seq=u.seqlist_args(inp))
@@ -144,16 +152,16 @@ def _replay(ck, label, cases, devmap=None):
     return _report(ck, label, cases, res, devmap)
 
 
-def _gen_params_subset(ck, cases, nmax, sd):
+def _gen_params_subset(ck, cases, nmax, sd, label="gen_params"):
     rng = random.Random(sd)
     pool = [x for x in cases if not u._seq(x["free"]) and not _is_circ_protein(x["inp"])]
     pick = rng.sample(pool, min(nmax, len(pool)))
-    wd = c.workdir(PROP, "gen_params")
+    wd = c.workdir(PROP, label)
     ff = wd / "universe.ff"
     u.universe_ff(ff)
     parts = [(i, ch, str(wd), str(ff)) for i, ch in enumerate(c.chunks(list(enumerate(pick)), c.NPROC * 2))]
     res = c.pmap(_gp_chunk, parts)
-    ck.extra["through_gen_params"] = len(pick)
+    ck.extra["through_" + label] = len(pick)
     return _report(ck, "gen_params", pick, res, None)
 
 
@@ -273,19 +281,7 @@ def record(inps, name):
     return traces
 
 
-def validate(traces, name, cfg="Seq_trace.cfg", prop=PROP):
-    """-> (TLC result, {tid (1-based): events matched}) for the rejected traces"""
-    wd = c.workdir(prop, "val_" + name)
-    f = wd / "traces.json"
-    f.write_text(json.dumps({"traces": traces}))
-    res = c.tlc("SeqInputTrace", cfg, workers=1, env={"TRACE_FILE": str(f)}, check=False)
-    rej = res.tagged("REJECTED")
-    if (res.rc != 0 and not rej) or res.inv_violated or (res.rc == 0 and "Model checking completed" not in res.out):
-        raise c.MachineryError("SeqInputTrace failed (%s): %s" % (name, res.out[-2500:]))
-    rejected = {}
-    for r in rej:
-        rejected.update({int(t): int(m) for t, m in r})
-    return res, rejected
+validate = u.validate
 
 
 def validate_batches(ck, traces, name, size=400):
@@ -298,22 +294,23 @@ def validate_batches(ck, traces, name, size=400):
         ck.traces += len(part) - len(rejected)
         for tid, matched in sorted(rejected.items()):
             bad.append((part[tid - 1], matched))
+            part[tid - 1]["_rejected"] = True
     if not bad:
         return 0
     known = []
     if SIG_CIRC in ck._known:
         cand = [(tr, m) for tr, m in bad if _is_circ_protein(tr["inp"])]
         if cand:
-            _, rej2 = validate([tr for tr, _ in cand], name + "_known", cfg="Seq_trace_known.cfg")
+            _, rej2 = validate([tr for tr, _ in cand], name + "_known", cfg="Seq_trace_known.cfg", prop=PROP)
             known = [cand[i][0] for i in range(len(cand)) if (i + 1) not in rej2]
     nviol = 0
     for tr, matched in bad:
         if any(tr is kn for kn in known):
-            ck.violation({"kind": "I->S trace", "trace": tr}, sig=SIG_CIRC)
+            ck.violation({"kind": "I->S trace", "trace": {"inp": tr["inp"], "events": tr["events"]}}, sig=SIG_CIRC)
             continue
         nviol += 1
         ev = tr["events"][matched] if matched < len(tr["events"]) else {}
-        ck.violation({"kind": "I->S trace", "trace": tr, "matched_events": matched},
+        ck.violation({"kind": "I->S trace", "trace": {"inp": tr["inp"], "events": tr["events"]}, "matched_events": matched},
                      what="record of the real code rejected by SeqInput after %d matched events: input %s ; next event %s" % (
                          matched, json.dumps(tr["inp"])[:300], json.dumps(ev)[:300]))
     return nviol
@@ -322,8 +319,12 @@ def validate_batches(ck, traces, name, size=400):
 def binding_demo(ck, traces):
     """one corrupted field must be rejected, and only that trace"""
     import copy
-    demo = copy.deepcopy([t for t in traces if t["inp"]["fam"] != "genseq"][:3] + [t for t in traces if t["inp"]["fam"] == "genseq"][:2])
+    good = [t for t in traces if not t.get("_rejected")]            # only records the specification accepted
+    demo = copy.deepcopy([t for t in good if t["inp"]["fam"] != "genseq"][:3] + [t for t in good if t["inp"]["fam"] == "genseq"][:2])
     if len(demo) < 5:
+        if ck.violations:
+            ck.note("binding demonstration skipped: fewer than 5 accepted records")
+            return
         raise c.MachineryError("binding demonstration: not enough traces")
     g = demo[0]["events"][0]["g"]
     g["name"][len(g["name"]) // 2] = "XXX"                              # a wrong residue name in a pure-function record
@@ -340,6 +341,7 @@ def binding_demo(ck, traces):
 def run(tier):
     ck = c.Check(PROP, tier)
     q = tier == "quick"
+    import polyply  # noqa: F401  (imported before the worker pools fork)
     sd = c.seed()
     ck.rule = ("S->I: TLC enumerates every one-letter sequence of length 1-4 over alphabet slices covering all DNA / RNA / protein letters "
                "with every line breaking (.fasta, .ig linear/circular, terminator on its own line), .txt names, -seq NAME:n lists, "
@@ -356,12 +358,12 @@ def run(tier):
                       "trusted: TLC, the rendering and projection in harness/seq_util.py, networkx"]
     ck.stage("TLC: exports (with all invariants) and sensitivity runs, concurrently")
     t = "q" if q else "t"
-    jobs = [("SeqInputExport", "Seq_fasta_%s.cfg" % t, {"workers": 3}),
-            ("SeqInputExport", "Seq_ig_%s.cfg" % t, {"workers": 4}),
-            ("SeqInputExport", "Seq_plain.cfg", {"workers": 2}),
-            ("SeqInputExport", "Seq_gen_%s.cfg" % t, {"workers": 5}),
-            ("SeqInputExport", "Seq_igdev_%s.cfg" % t, {"workers": 2})]
-    jobs += [("SeqInputMC", "Seq_dev_%s.cfg" % d, {"check": False, "workers": 1}) for d, _ in DEVS]
+    jobs = [("SeqInputExport", "Seq_fasta_%s.cfg" % t, {"workers": 2, "env": FAST}),
+            ("SeqInputExport", "Seq_ig_%s.cfg" % t, {"workers": 3, "env": FAST}),
+            ("SeqInputExport", "Seq_plain.cfg", {"workers": 2, "env": FAST}),
+            ("SeqInputExport", "Seq_gen_%s.cfg" % t, {"workers": 6}),
+            ("SeqInputExport", "Seq_igdev_%s.cfg" % t, {"workers": 2, "env": FAST})]
+    jobs += [("SeqInputMC", "Seq_dev_%s.cfg" % d, {"check": False, "workers": 1, "env": FAST}) for d, _ in DEVS]
     res = c.tlc_many(jobs)
     fasta, ig, plain, gen, igdev = res[:5]
     for r, what in ((fasta, "fasta"), (ig, "ig"), (plain, "txt/-seq/json"), (gen, "gen_seq")):
@@ -389,6 +391,7 @@ def run(tier):
             raise c.MachineryError("action %s never occurs in the exported behaviours (vacuous)" % a)
     ck.stage("subset through gen_params")
     _gen_params_subset(ck, fcases + icases + pcases, 150 if q else 600, sd)
+    _gen_params_subset(ck, gcases, 60 if q else 300, sd + 1, "gen_params_genseq")
     # ---- I->S
     ck.stage("I->S: record")
     inps = gen_inputs(420 if q else 3000, sd, big=not q)
